@@ -476,7 +476,13 @@ impl<'a> IRCodeGen<'a> {
                 let res = self.var();
                 let (pre_code, current, post_code) = match &target {
                     E::Read { var, .. } => {
-                        (Vec::new(), Var(*var), vec![IR::Assign(Var(*var), res)])
+                        // `x += e` is `x = x + e`: x is read before e is evaluated, as for fields.
+                        let current = self.var();
+                        (
+                            vec![IR::Copy(current, Var(*var))],
+                            current,
+                            vec![IR::Assign(Var(*var), res)],
+                        )
                     }
                     E::Index { value, index, .. } => {
                         let (aops, a) = self.expression(value, ctx);
